@@ -651,6 +651,10 @@ class Interp(object):
                 x = npm.from_list(st, st.heap[x.addr].items)
             return Quantity(x, units.BASE['dimensionless_unscaled'])
         if op == '**':
+            if isinstance(b, Quantity) and not b.unit.dims and not isinstance(a, (Quantity, Unit)):
+                # a ** (dimensionless quantity)
+                e = npm.scale_value(st, b.value, b.unit.scale)
+                return npm.elementwise(st, lambda x, y: arith('**', x, y), a, e)
             if isinstance(b, (Quantity, Unit)):
                 raise Unsupported("quantity exponent")
             if isinstance(a, Unit):
@@ -1089,6 +1093,11 @@ class Interp(object):
             return Opaque('exception', fn.name)
         if isinstance(fn, LambdaVal):
             return self.call_lambda(fn, args, st)
+        from .extmodels import Interp1d, call_interp1d, SpecCallable
+        if isinstance(fn, Interp1d):
+            return call_interp1d(self, st, fr, fn, args, kwargs)
+        if isinstance(fn, SpecCallable):
+            return fn.fn(self, st, args, kwargs)
         if isinstance(fn, ObjRef):
             ci = self.class_of(fn, st)
             if ci is not None:
